@@ -36,11 +36,20 @@ import (
 type Violation struct {
 	Fingerprint string `json:"fingerprint"`
 	Msg         string `json:"msg"`
+	// ReplayCase, when set, is stored in the replay file instead of the generated case (the crash
+	// engine adds the recorded trace and the boundary so that replay does not depend on the schedule).
+	ReplayCase any `json:"-"`
 }
 
 func V(fp, format string, args ...any) *Violation {
 	return &Violation{Fingerprint: fp, Msg: fmt.Sprintf(format, args...)}
 }
+
+// Infra is panicked by harness code for problems of the machinery itself; the case is discarded, never judged.
+type Infra struct{ Msg string }
+
+func (i Infra) IsInfra() bool  { return true }
+func (i Infra) String() string { return i.Msg }
 
 func (v *Violation) String() string { return v.Fingerprint + ": " + v.Msg }
 
@@ -51,6 +60,7 @@ type Ctx struct {
 	subs       []sub
 	subEvals   int
 	sample     any
+	discard    string
 }
 
 type sub struct {
@@ -76,6 +86,10 @@ func (c *Ctx) Sub(key string, nt bool) {
 
 // SubN counts n enumerated positions that are trivial (or not individually tracked).
 func (c *Ctx) SubN(n int) { c.subEvals += n }
+
+// Discard marks the case as not judged for a reason that lies in the machinery (e.g. the crash engine's
+// self-check rejected the trace). Discarded cases are counted separately and never raise an alarm.
+func (c *Ctx) Discard(reason string) { c.discard = reason }
 
 // Sample overrides what is stored as a sample for this case (default: the case itself).
 func (c *Ctx) Sample(v any) { c.sample = v }
@@ -106,6 +120,7 @@ type stats struct {
 	Labels        map[string]int `json:"labels"`
 	Samples       []any          `json:"samples"`
 	ExcludedKnown map[string]int `json:"excluded_known"`
+	Discarded     map[string]int `json:"discarded"`
 	CorpusRun     int            `json:"corpus_run"`
 	Violation     *violationFile `json:"violation,omitempty"`
 }
@@ -192,6 +207,11 @@ func hash8(b []byte) [8]byte {
 func safeProp[C any](prop func(C, *Ctx) *Violation, c C, x *Ctx) (v *Violation) {
 	defer func() {
 		if r := recover(); r != nil {
+			if ie, ok := r.(interface{ IsInfra() bool }); ok && ie.IsInfra() {
+				x.discard = "infra: " + fmt.Sprint(r)
+				v = nil
+				return
+			}
 			st := string(debug.Stack())
 			v = &Violation{Fingerprint: "panic/" + panicSite(st), Msg: fmt.Sprintf("panic: %v\n%s", r, st)}
 		}
@@ -238,10 +258,20 @@ func (r *runner[C]) exec(c C, count bool) *Violation {
 			return nil
 		}
 		r.failed = true
-		r.last = &violationFile{Property: r.spec.ID, Fingerprint: v.Fingerprint, Msg: v.Msg, Case: cj}
+		rj := cj
+		if v.ReplayCase != nil {
+			if b, err := json.Marshal(v.ReplayCase); err == nil {
+				rj = b
+			}
+		}
+		r.last = &violationFile{Property: r.spec.ID, Fingerprint: v.Fingerprint, Msg: v.Msg, Case: rj}
 		return v
 	}
 	if !count || r.failed {
+		return nil
+	}
+	if x.discard != "" {
+		r.st.Discarded[x.discard]++
 		return nil
 	}
 	r.st.Cases++
@@ -303,7 +333,8 @@ func (r *runner[C]) structuralShrink() {
 				break
 			}
 			cj, err := json.Marshal(cand)
-			if err != nil || len(cj) >= len(bestV.Case) {
+			bj, _ := json.Marshal(best)
+			if err != nil || len(cj) >= len(bj) {
 				continue
 			}
 			if r.spec.MayDie && r.out != "" {
@@ -315,7 +346,13 @@ func (r *runner[C]) structuralShrink() {
 			}
 			if v != nil && v.Fingerprint == fp {
 				best = cand
-				bestV = violationFile{Property: r.spec.ID, Fingerprint: v.Fingerprint, Msg: v.Msg, Case: cj}
+				rj := cj
+				if v.ReplayCase != nil {
+					if b, err := json.Marshal(v.ReplayCase); err == nil {
+						rj = b
+					}
+				}
+				bestV = violationFile{Property: r.spec.ID, Fingerprint: v.Fingerprint, Msg: v.Msg, Case: rj}
 				improved = true
 				break
 			}
@@ -369,7 +406,7 @@ func (r *runner[C]) flush() {
 // Run is the body of the single Test function of a property package.
 func Run[C any](t *testing.T, spec Spec[C]) {
 	r := &runner[C]{spec: spec, nt: map[[8]byte]struct{}{}, known: loadKnown(spec.ID), out: os.Getenv("VERIF_OUT")}
-	r.st = stats{Property: spec.ID, Labels: map[string]int{}, ExcludedKnown: map[string]int{}}
+	r.st = stats{Property: spec.ID, Labels: map[string]int{}, ExcludedKnown: map[string]int{}, Discarded: map[string]int{}}
 	defer func() {
 		r.structuralShrink()
 		r.flush()
